@@ -255,9 +255,15 @@ func buildOperation(key string, r *expr.RouteExpr, bodies *EndpointBodies, rand 
 		}
 		mt := &MediaType{Schema: bodies.RequestBody}
 		initExamples(mt, e.Body, rand)
+		// The generated server accepts a request without body when the
+		// body is mapped to a payload attribute that is not required.
+		required := true
+		if o, ok := e.Body.Meta["origin:attribute"]; ok && !m.Payload.IsRequired(o[0]) {
+			required = false
+		}
 		requestBody = &RequestBodyRef{Value: &RequestBody{
 			Description: e.Body.Description,
-			Required:    e.Body.Type != expr.Empty,
+			Required:    required,
 			Content:     map[string]*MediaType{ct: mt},
 			Extensions:  openapi.ExtensionsFromExpr(e.Body.Meta),
 		}}
